@@ -109,6 +109,7 @@ def scenIds (ft : SFeat) : List Nat := (featScenarios ft).map (·.2.id)
 structure WF (c : SCfg) : Prop where
   nodup : ∀ ft ∈ c.feats, (scenIds ft).Nodup
   disj : ∀ ft ∈ c.feats, ∀ ft' ∈ c.feats, ∀ x ∈ scenIds ft, x ∈ scenIds ft' → ft.id = ft'.id
+  ids : ∀ ft ∈ c.feats, ∀ ft' ∈ c.feats, ft.id = ft'.id → ft = ft'
 
 theorem scens_newEntries (c : SCfg) (ft : SFeat) : scens (newEntries c ft) = scenIds ft := by
   simp [scens, newEntries, scenIds, Function.comp_def]
@@ -126,13 +127,14 @@ structure NInv (c : SCfg) (n : NState) : Prop where
   rnd : (Rs n.base).Nodup
   both : ∀ x ∈ Qs n.base, x ∈ Rs n.base → x ∈ n.reins
   reinsR : ∀ x ∈ n.reins, x ∈ Rs n.base
+  reinsQ : ∀ x ∈ n.reins, x ∈ Qs n.base
   reinsNd : n.reins.Nodup
   deliv : ∀ x, x ∈ Qs n.base ∨ x ∈ Rs n.base → ∀ ft ∈ c.feats, x ∈ scenIds ft →
     ft.id ∈ n.delivered ∧ n.base.pendingFeat ≠ some ft.id
   pend : ∀ f, n.base.pendingFeat = some f → f ∈ n.delivered
 
 theorem ninv_init (c : SCfg) : NInv c {} := by
-  refine ⟨?_, ?_, ?_, ?_, ?_, ?_, ?_⟩ <;> simp [Qs, Rs, scens, Queues.empty]
+  refine ⟨?_, ?_, ?_, ?_, ?_, ?_, ?_, ?_⟩ <;> simp [Qs, Rs, scens, Queues.empty]
 
 /-- how the multiset of held scenario ids changes, from the conservation invariant before and after -/
 theorem held_perm (s s' : SState) (g : List Nat × List Nat) (a : List Nat)
@@ -152,11 +154,12 @@ theorem ninv_same (c : SCfg) (n n' : NState) (h : NInv c n) (hc : SameCore n.bas
   obtain ⟨h1, h2, h3, h4⟩ := hc
   have hq : Qs n'.base = Qs n.base := by simp [Qs, h1, h2]
   have hR : Rs n'.base = Rs n.base := by simp [Rs, h3]
-  refine ⟨?_, ?_, ?_, ?_, ?_, ?_, ?_⟩
+  refine ⟨?_, ?_, ?_, ?_, ?_, ?_, ?_, ?_⟩
   · rw [hq]; exact h.qnd
   · rw [hR]; exact h.rnd
   · rw [hq, hR, hr]; exact h.both
   · rw [hr, hR]; exact h.reinsR
+  · rw [hr, hq]; exact h.reinsQ
   · rw [hr]; exact h.reinsNd
   · rw [hq, hR, hd, h4]; exact h.deliv
   · rw [h4, hd]; exact h.pend
@@ -198,11 +201,12 @@ theorem pOk_ninv (c : SCfg) (n : NState) (f : Nat) (h : NInv c n) (hc : NClean (
   obtain ⟨hf, hd, hr⟩ := hnew
   have hq : Qs (stepN c n (.pOk f)).base = Qs n.base := by rw [hb]; simp [Qs, h1, h2]
   have hR : Rs (stepN c n (.pOk f)).base = Rs n.base := by rw [hb]; simp [Rs, h3]
-  refine ⟨?_, ?_, ?_, ?_, ?_, ?_, ?_⟩
+  refine ⟨?_, ?_, ?_, ?_, ?_, ?_, ?_, ?_⟩
   · rw [hq]; exact h.qnd
   · rw [hR]; exact h.rnd
   · rw [hq, hR, hr]; exact h.both
   · rw [hr, hR]; exact h.reinsR
+  · rw [hr, hq]; exact h.reinsQ
   · rw [hr]; exact h.reinsNd
   · rw [hq, hR, hd, hb]
     intro x hx ft hft hxf
@@ -228,11 +232,12 @@ theorem pOk_ninv (c : SCfg) (n : NState) (f : Nat) (h : NInv c n) (hc : NClean (
 theorem ninv_perm_same (c : SCfg) (n n' : NState) (h : NInv c n) (hQ : Qs n'.base ~ Qs n.base)
     (hR : Rs n'.base = Rs n.base) (hp : n'.base.pendingFeat = n.base.pendingFeat)
     (hr : n'.reins = n.reins) (hd : n'.delivered = n.delivered) : NInv c n' := by
-  refine ⟨?_, ?_, ?_, ?_, ?_, ?_, ?_⟩
+  refine ⟨?_, ?_, ?_, ?_, ?_, ?_, ?_, ?_⟩
   · exact hQ.nodup_iff.mpr h.qnd
   · rw [hR]; exact h.rnd
   · intro x hx hxr; rw [hr]; exact h.both x (hQ.mem_iff.mp hx) (hR ▸ hxr)
   · rw [hr, hR]; exact h.reinsR
+  · rw [hr]; exact fun x hx => hQ.mem_iff.mpr (h.reinsQ x hx)
   · rw [hr]; exact h.reinsNd
   · intro x hx ft hft hxf
     rw [hd, hp]
@@ -246,10 +251,11 @@ theorem ninv_perm_same (c : SCfg) (n n' : NState) (h : NInv c n) (hQ : Qs n'.bas
 theorem ninv_of_added (c : SCfg) (n n' : NState) (h : NInv c n) (A : List Nat)
     (hQ : Qs n'.base ~ Qs n.base ++ A) (hR : Rs n'.base = Rs n.base)
     (hAnd : A.Nodup) (hAQ : ∀ x ∈ A, x ∉ Qs n.base) (hAR : ∀ x ∈ A, x ∈ Rs n.base → x ∈ n'.reins)
-    (hre : ∀ x ∈ n.reins, x ∈ n'.reins) (hre2 : ∀ x ∈ n'.reins, x ∈ Rs n.base) (hnd : n'.reins.Nodup)
+    (hre : ∀ x ∈ n.reins, x ∈ n'.reins) (hre2 : ∀ x ∈ n'.reins, x ∈ Rs n.base)
+    (hre3 : ∀ x ∈ n'.reins, x ∈ Qs n.base ∨ x ∈ A) (hnd : n'.reins.Nodup)
     (hdel : ∀ x ∈ A, ∀ ft ∈ c.feats, x ∈ scenIds ft → ft.id ∈ n'.delivered)
     (hd : ∀ f ∈ n.delivered, f ∈ n'.delivered) (hp : n'.base.pendingFeat = none) : NInv c n' := by
-  refine ⟨?_, ?_, ?_, ?_, ?_, ?_, ?_⟩
+  refine ⟨?_, ?_, ?_, ?_, ?_, ?_, ?_, ?_⟩
   · refine hQ.nodup_iff.mpr ?_
     rw [nodup_append]
     refine ⟨h.qnd, hAnd, ?_⟩
@@ -262,6 +268,7 @@ theorem ninv_of_added (c : SCfg) (n n' : NState) (h : NInv c n) (A : List Nat)
     · exact hre x (h.both x hx hxr)
     · exact hAR x hx hxr
   · intro x hx; rw [hR]; exact hre2 x hx
+  · intro x hx; exact hQ.mem_iff.mpr (mem_append.mpr (hre3 x hx))
   · exact hnd
   · intro x hx ft hft hxf
     refine ⟨?_, by rw [hp]; simp⟩
@@ -293,7 +300,7 @@ theorem ins_pending (c : SCfg) (s : SState) (t : Nat) (ps pc : List QE) :
 theorem insAdds_retry (c : SCfg) (s : SState) (ps pc : List QE) (hp : s.pendingFeat = none) :
     (retryParent s ps pc = none ∧ insAdds c s ps pc = []) ∨
     (∃ e, retryParent s ps pc = some e ∧ e ∈ s.running ∧
-      (insAdds c s ps pc = [e.key.scen] ∨ insAdds c s ps pc = [])) := by
+      insAdds c s ps pc = if (nextTry e.ret true).isSome then [e.key.scen] else []) := by
   unfold retryParent insAdds
   simp only [hp]
   split
@@ -302,10 +309,7 @@ theorem insAdds_retry (c : SCfg) (s : SState) (ps pc : List QE) (hp : s.pendingF
     cases hf : s.running.find? (fun e => e.key.scen == p.scen) with
     | none => exact Or.inl ⟨rfl, rfl⟩
     | some e =>
-      refine Or.inr ⟨e, rfl, mem_of_find?_eq_some hf, ?_⟩
-      by_cases hnt : (nextTry e.ret true).isSome = true
-      · exact Or.inl (by simp [hnt])
-      · exact Or.inr (by simp [hnt])
+      exact Or.inr ⟨e, rfl, mem_of_find?_eq_some hf, rfl⟩
   · rename_i hno
     refine Or.inl ⟨rfl, ?_⟩
     split
@@ -342,6 +346,28 @@ theorem ins_Qs (c : SCfg) (s : SState) (t : Nat) (ps pc : List QE) (g : List Nat
     exact Perm.append_left _ perm_append_comm
   exact (perm_append_right_iff _).mp this
 
+/-- a re-insertion accepted by the base acceptor is within the budget of the attempt it succeeds -/
+theorem ins_retry_budget (c : SCfg) (s : SState) (t : Nat) (ps pc : List QE) (e : Entry) (hp : s.pendingFeat = none)
+    (hpar : retryParent s ps pc = some e) (hg : GoodRQ (stepL c s (.ins t ps pc)) = true) :
+    (nextTry e.ret true).isSome = true := by
+  rw [ins_eq] at hg
+  unfold insR at hg
+  simp only [hp] at hg
+  unfold retryParent at hpar
+  simp only [hp] at hpar
+  unfold insRetry at hg
+  simp only at hg
+  split at hpar
+  · rename_i b p hfresh
+    simp only [hfresh, hpar] at hg
+    cases hnt : nextTry e.ret true with
+    | some o => rfl
+    | none =>
+      simp only [hnt, Option.map_none] at hg
+      rw [not_good_follow _ c .R _ ps pc (Or.inl rfl)] at hg
+      cases hg
+  · cases hpar
+
 theorem ins_ninv (c : SCfg) (hwf : WF c) (n : NState) (t : Nat) (ps pc : List QE) (g : List Nat × List Nat)
     (h : NInv c n) (hci : CInv n.base g) (hc : NClean (stepN c n (.ins t ps pc)) = true) :
     NInv c (stepN c n (.ins t ps pc)) := by
@@ -366,7 +392,7 @@ theorem ins_ninv (c : SCfg) (hwf : WF c) (n : NState) (t : Nat) (ps pc : List QE
         obtain ⟨hm, hid⟩ := feat?_spec c f ft0 hft
         simp only [Option.getD_some]
         exact ⟨hwf.nodup ft0 hm, fun x hx => ⟨ft0, hm, hid, hx⟩⟩
-    refine ninv_of_added c n _ h _ (by rw [hb]; exact hQ) (by rw [hb]; exact hR) hA.1 ?_ ?_ ?_ ?_ ?_ ?_ ?_ (by rw [hb]; exact hpn)
+    refine ninv_of_added c n _ h _ (by rw [hb]; exact hQ) (by rw [hb]; exact hR) hA.1 ?_ ?_ ?_ ?_ ?_ ?_ ?_ ?_ (by rw [hb]; exact hpn)
     · intro x hx hxq
       obtain ⟨ft0, hm, hid, hx0⟩ := hA.2 x hx
       exact (h.deliv x (Or.inl hxq) ft0 hm hx0).2 (by rw [hpf, hid])
@@ -375,6 +401,7 @@ theorem ins_ninv (c : SCfg) (hwf : WF c) (n : NState) (t : Nat) (ps pc : List QE
       exact absurd (by rw [hpf, hid]) (h.deliv x (Or.inr hxr) ft0 hm hx0).2
     · rw [hst.1]; exact fun x hx => hx
     · rw [hst.1]; exact h.reinsR
+    · rw [hst.1]; exact fun x hx => Or.inl (h.reinsQ x hx)
     · rw [hst.1]; exact h.reinsNd
     · intro x hx ft hft hxf
       obtain ⟨ft0, hm, hid, hx0⟩ := hA.2 x hx
@@ -402,23 +429,28 @@ theorem ins_ninv (c : SCfg) (hwf : WF c) (n : NState) (t : Nat) (ps pc : List QE
           · exact ⟨by simpa using hnot, rfl, rfl⟩
       obtain ⟨hnr, hre, hdl⟩ := hst
       have hxQ : e.key.scen ∉ Qs n.base := fun hq => hnr (h.both _ hq hxR)
-      have hsub : ∀ x ∈ insAdds c n.base ps pc, x = e.key.scen := by
-        intro x hx
-        rcases hadds with ha | ha <;> rw [ha] at hx <;> simp at hx
-        exact hx
-      refine ninv_of_added c n _ h _ (by rw [hb]; exact hQ) (by rw [hb]; exact hR) ?_ ?_ ?_ ?_ ?_ ?_ ?_ ?_ (by rw [hb]; exact hpn)
-      · rcases hadds with ha | ha <;> rw [ha] <;> simp
-      · intro x hx; rw [hsub x hx]; exact hxQ
-      · intro x hx _; rw [hre, hsub x hx]; exact mem_cons_self
+      have hnt := ins_retry_budget c n.base t ps pc e hpf hpar (clean_good _ (clean0_all _ hc0).2.2).2
+      have hadds' : insAdds c n.base ps pc = [e.key.scen] := by rw [hadds]; simp [hnt]
+      rw [hadds'] at hQ
+      refine ninv_of_added c n _ h _ (by rw [hb]; exact hQ) (by rw [hb]; exact hR) ?_ ?_ ?_ ?_ ?_ ?_ ?_ ?_ ?_ (by rw [hb]; exact hpn)
+      · simp
+      · intro x hx; rw [mem_singleton.mp hx]; exact hxQ
+      · intro x hx _; rw [hre, mem_singleton.mp hx]; exact mem_cons_self
       · rw [hre]; exact fun x hx => mem_cons_of_mem _ hx
       · rw [hre]
         intro x hx
         rcases mem_cons.mp hx with rfl | hx
         · exact hxR
         · exact h.reinsR x hx
+      · rw [hre]
+        intro x hx
+        rcases mem_cons.mp hx with rfl | hx
+        · exact Or.inr mem_cons_self
+        · exact Or.inl (h.reinsQ x hx)
       · rw [hre]; exact nodup_cons.mpr ⟨hnr, h.reinsNd⟩
       · intro x hx ft hft hxf
-        rw [hdl, hsub x hx] at *
+        rw [hdl]
+        rw [mem_singleton.mp hx] at hxf
         exact (h.deliv _ (Or.inr hxR) ft hft hxf).1
       · rw [hdl]; exact fun x hx => hx
 
@@ -510,7 +542,7 @@ theorem disp_ninv (c : SCfg) (n : NState) (k : Nat) (sl : Slots) (h : NInv c n)
   have hqnd := h.qnd
   rw [hQsplit, nodup_append] at hqnd
   obtain ⟨hA, hB, hAB⟩ := hqnd
-  refine ⟨?_, ?_, ?_, ?_, ?_, ?_, ?_⟩
+  refine ⟨?_, ?_, ?_, ?_, ?_, ?_, ?_, ?_⟩
   · rw [hb, hq]; exact hA
   · rw [hb, hR, nodup_append]
     refine ⟨h.rnd, hB, ?_⟩
@@ -522,6 +554,13 @@ theorem disp_ninv (c : SCfg) (n : NState) (k : Nat) (sl : Slots) (h : NInv c n)
     · exact h.both x (by rw [hQsplit]; exact mem_append_left _ hx) hxr
     · exact absurd rfl (hAB x hx x hxr)
   · rw [hre, hb, hR]; exact fun x hx => mem_append_left _ (h.reinsR x hx)
+  · rw [hre, hb, hq]
+    intro x hx
+    have hxq := h.reinsQ x hx
+    rw [hQsplit] at hxq
+    rcases mem_append.mp hxq with hxq | hxq
+    · exact hxq
+    · exact absurd (h.reinsR x hx) (hdis x hxq)
   · rw [hre]; exact h.reinsNd
   · rw [hb, hq, hR, hdl, hpf]
     intro x hx ft hft hxf
@@ -568,7 +607,7 @@ theorem endA_ninv (c : SCfg) (n : NState) (id : Nat) (failed retried : Bool) (t 
       simpa [Rs, scens, g3] using this
     have hnd : (e.key.scen :: Rs (stepL c n.base (.endA id failed retried t))).Nodup := hperm.nodup_iff.mp h.rnd
     obtain ⟨hx, hnd'⟩ := nodup_cons.mp hnd
-    refine ⟨?_, ?_, ?_, ?_, ?_, ?_, ?_⟩
+    refine ⟨?_, ?_, ?_, ?_, ?_, ?_, ?_, ?_⟩
     · rw [hb, hq]; exact h.qnd
     · rw [hb]; exact hnd'
     · rw [hb, hq, hre]
@@ -582,6 +621,8 @@ theorem endA_ninv (c : SCfg) (n : NState) (id : Nat) (failed retried : Bool) (t 
       rcases mem_cons.mp (hperm.mem_iff.mp (h.reinsR y hy')) with heq | hin
       · exact absurd heq hne
       · exact hin
+    · rw [hre, hb, hq]
+      exact fun y hy => h.reinsQ y (mem_of_mem_erase hy)
     · rw [hre]; exact h.reinsNd.erase _
     · rw [hb, hq, hdl, g4]
       intro y hy ft hft hyf
@@ -649,5 +690,50 @@ theorem run_ninv (c : SCfg) (hwf : WF c) (ls : List Label) (n : NState) (g : Lis
 theorem acceptN_ninv (c : SCfg) (hwf : WF c) (ls : List Label) (hc : NClean (acceptN c ls) = true) :
     NInv c (acceptN c ls) :=
   run_ninv c hwf ls {} ([], []) (ninv_init c) cinv_init hc
+
+/-! ## how the waiting / in-flight scenarios change, label by label (re-used by Lemmas/SchedFin.lean) -/
+
+theorem get2_QR (c : SCfg) (s : SState) (t : Nat) (sl : Slots) (got : List Nat) (b : Bool) (r : Nat)
+    (g : List Nat × List Nat) (hci : CInv s g) (hc : Clean (stepL c s (.get2 t sl got b r)) = true) :
+    Qs (stepL c s (.get2 t sl got b r)) ~ Qs s ∧ Rs (stepL c s (.get2 t sl got b r)) = Rs s := by
+  have hci' := step_cinv c s g (.get2 t sl got b r) hci hc
+  have hci'' : CInv (stepL c s (.get2 t sl got b r)) (g.1 ++ [], g.2) := by simpa [gstep] using hci'
+  have hp := held_perm s _ g [] hci hci''
+  have hR : Rs (stepL c s (.get2 t sl got b r)) = Rs s := by simp [Rs, run_get2]
+  rw [ents_scens, ents_scens, hR, append_nil] at hp
+  exact ⟨(perm_append_right_iff _).mp hp, hR⟩
+
+theorem disp_QR (c : SCfg) (s : SState) (k : Nat) (sl : Slots) :
+    Qs (stepL c s (.disp k sl)) = scens (s.q.serial ++ s.q.conc) ∧
+    Rs (stepL c s (.disp k sl)) = Rs s ++ scens s.batch ∧
+    Qs s = scens (s.q.serial ++ s.q.conc) ++ scens s.batch := by
+  obtain ⟨f1, f2, f3⟩ := disp5_fields s k sl
+  refine ⟨?_, ?_, ?_⟩
+  · rw [disp_eq]; simp [Qs, dispR, f1]
+  · rw [disp_eq]; simp [Rs, dispR, f2, f3, scens_append]
+  · simp [Qs, scens_append]
+
+theorem endA_QR (c : SCfg) (s : SState) (id : Nat) (failed retried : Bool) (t : Nat) (e : Entry)
+    (hf : s.running.find? (fun x => x.id == id) = some e) :
+    Qs (stepL c s (.endA id failed retried t)) = Qs s ∧
+    Rs s ~ e.key.scen :: Rs (stepL c s (.endA id failed retried t)) := by
+  have hfields : (stepL c s (.endA id failed retried t)).q = s.q ∧
+      (stepL c s (.endA id failed retried t)).batch = s.batch ∧
+      (stepL c s (.endA id failed retried t)).running = s.running.eraseP (fun x => x.id == id) := by
+    rw [endA_eq]
+    unfold endR
+    simp only [hf]
+    split <;> simp [SState.note]
+  obtain ⟨g1, g2, g3⟩ := hfields
+  refine ⟨by simp [Qs, g1, g2], ?_⟩
+  have := scens_perm _ _ (perm_eraseP_of_find _ _ _ hf)
+  simpa [Rs, scens, g3] using this
+
+theorem endA_none_core (c : SCfg) (s : SState) (id : Nat) (failed retried : Bool) (t : Nat)
+    (hf : s.running.find? (fun x => x.id == id) = none) : SameCore s (stepL c s (.endA id failed retried t)) := by
+  rw [endA_eq]
+  unfold endR
+  simp only [hf]
+  exact ⟨rfl, rfl, rfl, rfl⟩
 
 end Cuke.SchedSeq
